@@ -26,7 +26,11 @@ def classify (f : String) : Option Dep :=
           "malloc", "realloc", "free", "__ctype_b_loc", "__errno_location", "__assert_fail", "strerror", "dirname",
           "__xpg_basename", "basename", "open_memstream", "vfprintf", "fprintf", "snprintf", "vsnprintf", "sprintf",
           "fputc", "fputs", "puts", "printf", "putchar", "abort", "isalnum", "isdigit", "ispunct", "isspace", "isxdigit",
-          "tolower", "toupper", "strcat", "strcpy", "strncat", "qsort", "abs", "labs"] then some .pure
+          "tolower", "toupper", "strcat", "strcpy", "strncat", "qsort", "abs", "labs", "memchr", "memrchr", "strnlen",
+          "strpbrk", "strspn", "strcspn", "strcasecmp", "strtoull", "strtoll", "strtof", "atoi", "atol", "bsearch", "isalpha",
+          "isupper", "islower", "isprint", "iscntrl", "__ctype_tolower_loc", "__ctype_toupper_loc", "__stack_chk_fail",
+          "__memcpy_chk", "__strcpy_chk", "__sprintf_chk", "__snprintf_chk", "__vfprintf_chk", "__fprintf_chk", "__printf_chk",
+          "__isoc99_sscanf", "sscanf", "asprintf", "vasprintf", "putc", "fputc_unlocked", "ceil", "floor", "fabs", "ldexp"] then some .pure
   else if f ∈ ["fopen", "fclose", "fflush", "fread", "fwrite", "fgetc", "getc", "stdin", "stdout", "stderr", "close",
                "open", "read", "write", "unlink", "glob", "globfree", "ferror", "feof"] then some .fileio
   else if f ∈ ["fork", "execvp", "wait", "waitpid", "exit", "_exit", "atexit"] then some .process
